@@ -301,9 +301,11 @@ def run(ctx: Ctx):
             f"tokens are (steps, batch) for dim == 0 and (batch, steps) for dim == 1, so the batch axis is 1 - dim; with a fixed axis "
             f"the packed and the padded form disagree for the other layout") if bad_axes else "", rel,
            bad_axes[0][0].lineno if bad_axes else kp.line, sample=axis_sites)
-    col.ob("G12", "S2", f"{rel}::_sequence_log_probs_tensor::up-to-and-including-first-eos", okl and okm,
-           f"positions are dropped under `{u(lm[0]) if lm else None}` with length `{u(lens[0].value) if lens else None}`; "
-           f"expected position >= (first eos index + 1)", rel, kt.line)
+    table_decided = _seqlp_table(ctx, kt, rel)
+    if not table_decided:
+      col.ob("G12", "S2", f"{rel}::_sequence_log_probs_tensor::up-to-and-including-first-eos", okl and okm,
+             f"positions are dropped under `{u(lm[0]) if lm else None}` with length `{u(lens[0].value) if lens else None}`; "
+             f"expected position >= (first eos index + 1)", rel, kt.line)
 
     # ---- S3 greedy CTC neutral elements --------------------------------------------------------------------------
     g = pkg.func(f"{MOD}::ctc_greedy_search")
@@ -343,8 +345,10 @@ def run(ctx: Ctx):
     # repeats and blanks: keep = (label != blank) & (label != previous label), first frame kept iff non-blank
     txt = " ".join(u(n) for n in own_nodes(g.node) if isinstance(n, ast.Assign))
     okk = "!= blank_idx" in txt and re.search(r"(\w+)\[:, 1:\] != \1\[:, :-1\]", txt) is not None
-    col.ob("G12", "S3", f"{rel}::ctc_greedy_search::drop-blanks-and-repeats", okk,
-           "the keep mask is not (label != blank) & (label != previous label)", rel, g.line)
+    greedy_decided = _greedy_table(ctx, g, rel)
+    if not greedy_decided:
+      col.ob("G12", "S3", f"{rel}::ctc_greedy_search::drop-blanks-and-repeats", okk,
+             "the keep mask is not (label != blank) & (label != previous label)", rel, g.line)
 
     # ---- S4 the distribution wrapper uses one source for eos / max_iters / vocabulary ------------------------------
     dist = pkg.cls(f"{MOD}::SequentialLanguageModelDistribution")
@@ -591,6 +595,170 @@ def _log_prob_input_contract(ctx: Ctx, dist, lp, rel: str):
            "instead of one, or the reshape raises", rel, lp.line)
 
 
+def _greedy_table(ctx: Ctx, g, rel: str) -> bool:
+    """S3 as a table: ctc_greedy_search interpreted over exact values (sa/interp.py + sa/teval.py; nothing is run; log_softmax is the
+    identity on the given scores) for three sequences of five frames over two labels and a blank - repeats with and without a blank
+    between them, a leading blank, frames beyond the valid length - with and without `in_lens`, both layouts, probabilities (product)
+    and log-probabilities (sum), the blank addressed by a positive and a negative index. Documented: the score is the product / sum of
+    the per-frame maxima over the valid frames; the labels are the per-frame best labels with repeats merged and blanks dropped."""
+    import numpy as np
+    from fractions import Fraction as Fr
+    from sa.interp import Interp
+    from sa.inteval import NotEvaluable
+    from sa.teval import frac_array
+    col = ctx.col
+    where = f"{rel}::{g.qualname}"
+    V, BL = 3, 2
+    best = [[0, 0, 2, 0, 1], [2, 1, 1, 2, 2], [1, 0, 0, 1, 2]]  # (N=3, T=5) best label per frame
+    lens = [5, 4, 3]
+    sc = np.empty((3, 5, V), dtype=object)
+    for n_ in range(3):
+        for t_ in range(5):
+            for v_ in range(V):
+                sc[n_, t_, v_] = Fr(2 + n_ + 2 * t_ + (7 if v_ == best[n_][t_] else v_), 29)
+    bad, n_rows = None, 0
+    try:
+        for bf in (True, False):
+            for probs in (True, False):
+                for use_lens in (True, False):
+                    for blank in (BL, BL - V):
+                        def leaf(x, env):
+                            if isinstance(x, ast.Call) and isinstance(x.func, ast.Attribute) and x.func.attr == "log_softmax":
+                                return holder["it"].eval(x.func.value if call_name(x).split(".")[0] != "torch" else x.args[0], env)
+                            return None
+                        holder = {}
+                        it = Interp(leaf=leaf, tensors=True)
+                        holder["it"] = it
+                        env = {a.arg: None for a in g.node.args.args}
+                        names = [a.arg for a in g.node.args.args]
+                        env[names[0]] = frac_array((sc if bf else np.swapaxes(sc, 0, 1)).tolist())
+                        env.update(in_lens=frac_array(lens) if use_lens else None, blank_idx=blank, batch_first=bf, is_probs=probs)
+                        kind, got = it.run(g.node, env)
+                        n_rows += 1
+                        want_scores, want_paths = [], []
+                        for n_ in range(3):
+                            L_ = lens[n_] if use_lens else 5
+                            mx = [sc[n_, t_, best[n_][t_]] for t_ in range(L_)]
+                            tot = Fr(1) if probs else Fr(0)
+                            for z in mx:
+                                tot = tot * z if probs else tot + z
+                            want_scores.append(tot)
+                            path, prev = [], None
+                            for t_ in range(L_):
+                                b_ = best[n_][t_]
+                                if b_ != prev and b_ != BL:
+                                    path.append(b_)
+                                prev = b_
+                            want_paths.append(path)
+                        ok = kind == "return" and isinstance(got, tuple) and len(got) == 3
+                        if ok:
+                            gs, gp, gl = got
+                            gp = np.asarray(gp)
+                            gp = gp if bf else gp.T
+                            ok = [x for x in np.asarray(gs).tolist()] == want_scores and [int(x) for x in np.asarray(gl).tolist()] == [len(p_) for p_ in want_paths] \
+                                and all([int(x) for x in gp[n_, :len(want_paths[n_])].tolist()] == want_paths[n_] for n_ in range(3))
+                        if not ok and bad is None:
+                            bad = (bf, probs, use_lens, blank, got if kind == "return" else f"raise {got}", (want_scores, want_paths))
+    except NotEvaluable as e:
+        col.undecided(f"{where}: the greedy search is outside the interpreted fragment ({e})")
+        return False
+    col.floor("greedy_table_rows", n_rows, 16)
+
+    def _show(v):
+        if isinstance(v, tuple) and len(v) == 3 and hasattr(v[1], "tolist"):
+            return str(([str(x) for x in np.asarray(v[0]).tolist()], [[int(y) for y in r_] for r_ in np.asarray(v[1]).tolist()], [int(x) for x in np.asarray(v[2]).tolist()]))[:150]
+        return str(v)[:150]
+    col.ob("G12", "S3", f"{where}::greedy-table", bad is None,
+           (f"with batch_first={bad[0]}, is_probs={bad[1]}, in_lens {'given' if bad[2] else 'omitted'}, blank_idx={bad[3]} the search returns {_show(bad[4])} for the "
+            f"reference scores (best labels per frame {best}, valid lengths {lens}); documented: scores {[str(x) for x in bad[5][0]]} (product / sum of the "
+            f"per-frame maxima over the valid frames) and label sequences {bad[5][1]} (repeats merged, blanks dropped)") if bad else "", rel, g.line,
+           sample=dict(rows=n_rows))
+    return True
+
+
+def _seqlp_table(ctx: Ctx, kt, rel: str) -> bool:
+    """S2 as a table: the padded kernel of sequence_log_probs interpreted over exact values (sa/interp.py + sa/teval.py; nothing is
+    run; log_softmax is the identity on the given log-probabilities, _lens_from_eos the index of the first eos) for token sequences
+    with the eos in the middle, absent, and after an out-of-vocabulary token, with a junk token after the eos; layouts (T, N),
+    (N, T) and (2, T, 2) addressed by positive and negative `dim`; eos given or not. Documented value per sequence: the sum of the
+    scores of its tokens up to and including the first eos, an out-of-vocabulary token contributing 0."""
+    import numpy as np
+    from fractions import Fraction as Fr
+    from sa.interp import Interp
+    from sa.inteval import NotEvaluable
+    from sa.teval import frac_array
+    col = ctx.col
+    where = f"{rel}::{kt.qualname}"
+    C, EOS = 3, 2
+    seqs = [[1, 2, 0, 7], [0, 1, 0, 1], [5, 1, 2, 0], [2, 2, 1, 0]]
+
+    def first_eos(a, eos, dim):
+        a = np.moveaxis(a, dim, -1)
+        out = np.empty(a.shape[:-1], dtype=object)
+        for idx in np.ndindex(a.shape[:-1]):
+            row = [int(x) for x in a[idx]]
+            out[idx] = Fr(row.index(eos) if eos in row else len(row))
+        return out
+    bad, n_rows = None, 0
+    try:
+        for layout in ("TN", "NT", "ATB"):
+            for eos in (EOS, None):
+                tn = np.array(seqs, dtype=object).T  # (T=4, N=4)
+                if layout == "TN":
+                    hyp, dims = tn, (0, -2)
+                elif layout == "NT":
+                    hyp, dims = tn.T, (1, -1)
+                else:
+                    hyp, dims = np.moveaxis(tn.reshape(4, 2, 2), 0, 1), (1, -2)  # (2, T, 2)
+                hyp = frac_array(hyp.tolist())
+                lg = np.empty(hyp.shape + (C,), dtype=object)
+                for idx in np.ndindex(lg.shape):
+                    lg[idx] = Fr(1 + sum((k + 2) * (7 ** i) * v for i, (k, v) in enumerate(zip(range(9), idx))), 11)
+                for dim in dims:
+                    holder = {}
+
+                    def leaf(x, env):
+                        if isinstance(x, ast.Call):
+                            nm = call_name(x)
+                            if nm.endswith("log_softmax"):
+                                return holder["it"].eval(x.args[0] if nm.startswith("torch") else x.func.value, env)
+                            if nm == "_lens_from_eos":
+                                b_ = dict(zip(("tok", "eos", "dim"), x.args))
+                                b_.update({k.arg: k.value for k in x.keywords})
+                                it_ = holder["it"]
+                                return first_eos(it_.eval(b_["tok"], env), it_.eval(b_["eos"], env), int(it_.eval(b_["dim"], env)))
+                        return None
+                    it = Interp(leaf=leaf, tensors=True)
+                    holder["it"] = it
+                    names = [a.arg for a in kt.node.args.args]
+                    env = dict(zip(names, (lg, hyp, dim, eos)))
+                    kind, got = it.run(kt.node, env)
+                    n_rows += 1
+                    d = dim % hyp.ndim
+                    hm = np.moveaxis(hyp, d, -1)
+                    lm_ = np.moveaxis(lg, d, -2)
+                    want = np.empty(hm.shape[:-1], dtype=object)
+                    for idx in np.ndindex(hm.shape[:-1]):
+                        row = [int(x) for x in hm[idx]]
+                        stop = row.index(eos) + 1 if (eos is not None and eos in row) else len(row)
+                        want[idx] = sum((lm_[idx + (t_, row[t_])] for t_ in range(stop) if 0 <= row[t_] < C), Fr(0))
+                    same = kind == "return" and hasattr(got, "shape") and got.shape == want.shape and np.array_equal(np.asarray(got, dtype=object), want)
+                    if not same and bad is None:
+                        bad = (layout, dim, eos, got if kind == "return" else f"raise {got}", want)
+    except NotEvaluable as e:
+        col.undecided(f"{where}: the padded kernel is outside the interpreted fragment ({e})")
+        return False
+    col.floor("sequence_log_probs_table_rows", n_rows, 12)
+
+    def _show(v):
+        return str([str(x) for x in np.asarray(v).reshape(-1).tolist()] if hasattr(v, "shape") else v)[:100]
+    col.ob("G12", "S2", f"{where}::score-table", bad is None,
+           (f"with tokens laid out {dict(TN='(steps, batch)', NT='(batch, steps)', ATB='(2, steps, 2)')[bad[0]]}, dim={bad[1]}, eos={bad[2]} the kernel computes "
+            f"{_show(bad[3])}; documented (sum of the scores of each sequence's tokens up to and including its first eos, out-of-vocabulary tokens "
+            f"contributing 0): {_show(bad[4])}") if bad else "", rel, kt.line, sample=dict(rows=n_rows))
+    return True
+
+
 def _support_table(ctx: Ctx, rel: str):
     """S4 (continued), as a table: TokenSequenceConstraint.check interpreted over exact values (sa/interp.py + sa/teval.py; nothing is
     run; fill_after_eos is given by its documented meaning) for five sequences of length three - with and without an eos, with an
@@ -688,8 +856,8 @@ def _mutants():
     return _extra + [
         M("packed-fill-1", D, "logits = logits.masked_fill(mask, 0.0)\n    logits = torch.nn.utils.rnn.pad_packed_sequence", "logits = logits.masked_fill(mask, 1.0)\n    logits = torch.nn.utils.rnn.pad_packed_sequence", "kernels-agree"),
         M("padded-oov-one-sided", D, "mask = hyp.lt(0) | hyp.ge(num_classes)\n    if eos is not None:", "mask = hyp.ge(num_classes)\n    if eos is not None:", "kernels-agree"),
-        M("eos-excluded", D, "hyp_lens = _lens_from_eos(hyp, eos, dim) + 1", "hyp_lens = _lens_from_eos(hyp, eos, dim)", "first-eos"),
-        M("eos-mask-strict", D, "len_mask = len_mask >= hyp_lens", "len_mask = len_mask > hyp_lens", "first-eos"),
+        M("eos-excluded", D, "hyp_lens = _lens_from_eos(hyp, eos, dim) + 1", "hyp_lens = _lens_from_eos(hyp, eos, dim)", "score-table"),
+        M("eos-mask-strict", D, "len_mask = len_mask >= hyp_lens", "len_mask = len_mask > hyp_lens", "score-table"),
         M("greedy-fill-swapped", D, "max_ = max_.masked_fill(~in_len_mask, 1.0)", "max_ = max_.masked_fill(~in_len_mask, 0.0)", "neutral-elements"),
         M("greedy-prod-sum-swapped", D, "if is_probs:\n        max_ = max_.prod(1)\n    else:\n        max_ = max_.sum(1)", "if is_probs:\n        max_ = max_.sum(1)\n    else:\n        max_ = max_.prod(1)", "neutral-elements"),
         M("module-drops-eos", D, "return sequence_log_probs(logits, hyp, self.dim, self.eos)", "return sequence_log_probs(logits, hyp, self.dim)", "G5/S1"),
